@@ -3,7 +3,8 @@
            slice/index an explicit Panic outcome; cryptography abstract (quantified functions), toy instantiation in the
            Examples and in the correspondence run (recvharness c09 plugs the same toy functions into a real instance). *)
 From Coq Require Import NArith ZArith List Bool Lia.
-From Opcua Require Import Model.RecvBase Model.RecvCrypto Proofs.RecvBaseProofs Proofs.RecvCryptoProofs.
+From Opcua Require Import Model.RecvBase Model.RecvCrypto Model.RecvMerge Model.RecvFrame
+  Proofs.RecvBaseProofs Proofs.RecvCryptoProofs Proofs.RecvFrameProofs.
 Import ListNotations.
 Open Scope Z_scope.
 
@@ -70,6 +71,47 @@ Proof.
   - exfalso. exact (C09_no_panic dec verify rsl lsl mode pn r p Hrsl E).
 Qed.
 
+
+(* Channel level (readChunk, Model.RecvFrame): the policy URI the channel works with is overwritten from the still
+   unauthenticated header of every incoming OPN chunk, BEFORE anything is verified.  On a channel whose mode is Sign or
+   SignAndEncrypt this cannot switch verification off: over any stream of frames, in any state, whatever readChunk hands on
+   carries a tag that verifies over all the rest under an algorithm of the channel (a stored token instance, the opening
+   instance, or the asymmetric algorithm built from the sender certificate) — forged OPN chunks naming policy #None, plaintext
+   MSG chunks, chunks for other tokens are all rejected. *)
+Fixpoint frames_state (un : bytes -> bool) (af : bytes -> bytes -> option algo) (st : fstate) (bs : list bytes) : fstate :=
+  match bs with [] => st | b :: r => frames_state un af (fst (read_frame un af true st b)) r end.
+
+Theorem C09_channel_never_raw : forall un af st before b c,
+  f_mode st <> SNone ->
+  let st' := frames_state un af st before in
+  snd (read_frame un af true st' b) = Ok c ->
+  exists h al mtv sig, chunk_decode b = Some h /\ candidate af st' b al /\
+    zlen sig = a_rsl al /\ a_verify al mtv sig = true /\
+    (mtv ++ sig = b \/ exists p, a_dec al (skipn (Z.to_nat (h_len h)) b) = Some p /\ mtv ++ sig = firstn (Z.to_nat (h_len h)) b ++ p).
+Proof.
+  intros un af st before. revert st. induction before as [|f r IH]; intros st b c Hm; cbn [frames_state].
+  - intros H. destruct (read_frame_secured un af st b c Hm H) as (h & al & pn & d & H1 & H2 & H3).
+    unfold verified_by in H3.
+    assert (Hrsl : 0 <= a_rsl al \/ a_rsl al < 0) by lia. destruct Hrsl as [Hrsl|Hneg].
+    + destruct (vd_authentic (a_dec al) (a_verify al) (a_rsl al) (a_lsl al) (f_mode st) pn Hrsl (h_asym h) (h_len h) (h_data h) b d
+                  (or_introl Hm) H3) as (bb & mtv & sig & pad & Hb & Hsplit & Hsl & Hv & _).
+      exists h, al, mtv, sig. repeat split; try assumption.
+      destruct (encrypted (f_mode st) (h_asym h)).
+      * destruct Hb as (ct & p & Hct & Hdec & Hbb). right. exists p. split; [|now rewrite <- Hsplit].
+        apply slice_inv in Hct. destruct Hct as (Hc1 & _ & _ & _ & ->).
+        rewrite firstn_all2 in Hdec; [exact Hdec|]. rewrite skipn_length. unfold zlen. lia.
+      * left. now rewrite <- Hsplit.
+    + exfalso. revert H3. unfold verify_decrypt.
+      replace ((match f_mode st with SNone => true | _ => false end) && (pn || negb (h_asym h))) with false
+        by (destruct (f_mode st); [contradiction|reflexivity|reflexivity]).
+      pose proof (chunk_decode_len _ _ H1) as [Hl1 Hl2]. pose proof (zlen_nonneg (h_data h)).
+      destruct (vd_front (a_dec al) (encrypted (f_mode st) (h_asym h)) (h_len h) b) as [x|e|p]; cbn [bind]; try discriminate.
+      unfold vd_tail. cbn [andb]. destruct (Z.ltb_spec (zlen x) (h_len h + a_rsl al)); [discriminate|].
+      destruct (slice x (zlen x - a_rsl al) (zlen x)) as [sg| |] eqn:Es; cbn [bind]; try discriminate.
+      apply slice_inv in Es. lia.
+  - apply IH. now rewrite read_frame_mode.
+Qed.
+
 (* The defect that was repaired (fixed: see known_findings.txt): without the length guards a 20-byte MSG chunk on a Sign
    channel with 32-byte signatures panics (slice bounds out of range [-12:]). *)
 Definition no_panic_without_guards : Prop := forall dec verify rsl lsl mode policy_none r p,
@@ -103,4 +145,5 @@ Print Assumptions C09_no_panic.
 Print Assumptions C09_authentic.
 Print Assumptions C09_only_peer_chunks.
 Print Assumptions C09_tampered_rejected.
+Print Assumptions C09_channel_never_raw.
 Print Assumptions C09_prefix_refuted.
